@@ -15,7 +15,8 @@ META = {
 }
 
 KEYS = ["mako.codegen:_GenerateRenderMethod.create_filter_callable", "mako.codegen:_GenerateRenderMethod.visitExpression",
-        "mako.codegen:_GenerateRenderMethod.write_def_finish"]
+        "mako.codegen:_GenerateRenderMethod.write_def_finish",
+        "mako.template:Template.__init__##default filters"]
 
 
 def regex_literals():
